@@ -105,6 +105,18 @@ def codegen(pkg, feature_args, log_path, need=()):
     return True, hs, wall
 
 
+_LIVE = set()
+
+
+def kill_live(*_a):
+    for pid in list(_LIVE):
+        try:
+            os.killpg(pid, signal.SIGKILL)
+        except Exception:
+            pass
+    os._exit(3)
+
+
 def _limit(rss_gb):
     def f():
         os.setsid()
@@ -121,10 +133,13 @@ def _run(cmd, timeout, rss_gb, out_path=None):
                 p = subprocess.Popen(cmd, stdout=of, stderr=subprocess.STDOUT, preexec_fn=_limit(rss_gb))
         else:
             p = subprocess.Popen(cmd, stdout=subprocess.DEVNULL, stderr=subprocess.DEVNULL, preexec_fn=_limit(rss_gb))
+        _LIVE.add(p.pid)
         try:
             rc = p.wait(timeout=timeout)
+            _LIVE.discard(p.pid)
             return rc, time.time() - t0, False
         except subprocess.TimeoutExpired:
+            _LIVE.discard(p.pid)
             try:
                 os.killpg(p.pid, signal.SIGKILL)
             except ProcessLookupError:
@@ -197,7 +212,7 @@ REC_PATTERNS = [
 ]
 
 
-def recursion_limits(meta):
+def recursion_limits(meta, k_override=None):
     sym = meta["goto_file"]
     pm = sym[:-len(".symtab.out")] + ".pretty_name_map.json"
     out = []
@@ -213,12 +228,12 @@ def recursion_limits(meta):
             continue
         for ty, fn, k in REC_PATTERNS:
             if ty.search(pretty) and fn.search(pretty):
-                out.append("%s:%d" % (mangled, k))
+                out.append("%s:%d" % (mangled, k_override or k))
                 break
     return out
 
 
-def verify_one(meta, unwind, solver, timeout, rss_gb, keep_log_dir):
+def verify_one(meta, unwind, solver, timeout, rss_gb, keep_log_dir, rec_limit=None):
     """run the post-codegen pipeline for one harness -> result dict"""
     sym = meta["goto_file"]
     mangled = meta["mangled_name"]
@@ -245,7 +260,7 @@ def verify_one(meta, unwind, solver, timeout, rss_gb, keep_log_dir):
         cmd += ["--external-sat-solver", "kissat"]
     else:
         cmd += ["--sat-solver", "cadical"]
-    rl = recursion_limits(meta)
+    rl = recursion_limits(meta, rec_limit)
     if rl:
         cmd += ["--unwindset", ",".join(rl)]
     cmd += ["--slice-formula", out, "--verbosity", "8"]
@@ -311,7 +326,7 @@ def run_group(pkg, harnesses, feature_args, jobs, timeout, rss_gb, log_dir, tag)
         if not md:
             return h.name, {"status": "inconclusive", "reason": "harness not found in kani metadata", "failed": [], "checks": 0,
                             "proved": 0, "covers_sat": 0, "covers_unsat": 0, "solver_s": 0.0, "symex_s": 0.0}
-        return h.name, verify_one(md, h.unwind, h.solver, timeout, rss_gb, log_dir)
+        return h.name, verify_one(md, h.unwind, h.solver, timeout, rss_gb, log_dir, getattr(h, "rec_limit", None))
     with ThreadPoolExecutor(max_workers=jobs) as ex:
         for name, r in ex.map(work, harnesses):
             results[name] = r
